@@ -28,8 +28,16 @@ namespace multi = boost::multi;
 using T = int;
 using idx_t = multi::index;
 
-#ifndef PTR
+#ifndef PTR_KIND
+#define PTR_KIND 0
+#endif
+#if PTR_KIND == 0
 using Ptr = T*;
+template<class U> T* to_mut(U* p) { return const_cast<T*>(p); }
+#else
+#include "common/fancy_ptr.hpp"
+using Ptr = fancy::xptr<T>;
+using fancy::to_mut;
 #endif
 
 constexpr int MAXD = 5;
@@ -42,13 +50,19 @@ template<multi::dimensionality_type D> auto mk(VS<D> const& s) { return multi::s
 // result of an operation -> stored state (elements become 0-D states)
 template<class V> auto store(V&& v) -> decltype(std::decay_t<V>::rank_v, AnyView{}) {
 	constexpr auto D = std::decay_t<V>::rank_v;
-	return AnyView{VS<D>{v.layout(), const_cast<Ptr>(static_cast<T const*>(v.base()))}};
+	return AnyView{VS<D>{v.layout(), to_mut(v.base())}};
 }
-inline AnyView store(T& e) { return AnyView{VS<0>{multi::layout_t<0>{multi::extensions_t<0>{}}, &e}}; }
-inline AnyView store(T const& e) { return AnyView{VS<0>{multi::layout_t<0>{multi::extensions_t<0>{}}, const_cast<T*>(&e)}}; }
 
 static T* g_mem = nullptr;  // start of the address space; addresses are reported relative to it
 static long addr_of(T const* p) { return static_cast<long>(p - g_mem); }
+#if PTR_KIND == 0
+static Ptr make_ptr(long off) { return g_mem + off; }
+#else
+template<class U> static long addr_of(fancy::xptr<U> const& p) { return static_cast<long>(p.off()); }
+static Ptr make_ptr(long off) { return Ptr::at(off); }
+#endif
+inline AnyView store(T& e) { return AnyView{VS<0>{multi::layout_t<0>{multi::extensions_t<0>{}}, make_ptr(addr_of(&e))}}; }
+inline AnyView store(T const& e) { return AnyView{VS<0>{multi::layout_t<0>{multi::extensions_t<0>{}}, make_ptr(addr_of(&e))}}; }
 
 static FILE* fprog = nullptr;
 static FILE* fans = nullptr;
@@ -83,7 +97,7 @@ static std::vector<std::vector<long>> box(std::vector<Ex> const& ex) { std::vect
 // access paths ---------------------------------------------------------------------------------------------
 template<class V> T const* addr_bracket(V&& v, long const* idx) {
 	constexpr auto D = std::decay_t<V>::rank_v;
-	if constexpr(D == 0) { return v.base(); }
+	if constexpr(D == 0) { return &*v.base(); }
 	else if constexpr(D == 1) { return &v[idx[0]]; }
 	else { return addr_bracket(v[idx[0]], idx + 1); }
 }
@@ -146,7 +160,7 @@ template<multi::dimensionality_type D> void q_paths(VS<D> const& s) {
 	std::vector<long> call, cur;
 	bool zero_based = std::all_of(ex.begin(), ex.end(), [](Ex const& e) { return e.first == 0; });
 	for(auto const& idx : idxs) {
-		if constexpr(D == 0) { call.push_back(addr_of(v.base())); if(zero_based) cur.push_back(addr_of(v.base())); }
+		if constexpr(D == 0) { call.push_back(addr_of(&*v.base())); if(zero_based) cur.push_back(addr_of(&*v.base())); }
 		else {
 			long c1 = addr_of(addr_call(v, idx.data(), std::make_index_sequence<D>{}));
 			long c2 = addr_of(addr_call(std::as_const(v), idx.data(), std::make_index_sequence<D>{}));
@@ -499,11 +513,15 @@ static void run_generated(std::uint64_t seed, long nprog, bool rebased) {
 		}
 		long base = 64 + rng.range(0, 9);
 		g_lo = base; g_hi = base + ne;
+#if PTR_KIND == 2
+		if(fancy::g_oob_deref != 0) { std::fprintf(fans, "OOB-DEREF %ld dereferences outside the storage\n", fancy::g_oob_deref); fancy::g_oob_deref = 0; }
+		fancy::xptr_bounds(g_lo, g_hi);
+#endif
 		std::fprintf(fprog, "prog %ld %llu\n", p, static_cast<unsigned long long>(seed)); std::fprintf(fans, "prog %ld %llu\n", p, static_cast<unsigned long long>(seed));
 		std::string rl = "root 0 " + std::to_string(base) + " " + std::to_string(D);
 		for(auto const& e : ex) rl += " " + std::to_string(e.first) + " " + std::to_string(e.last);
 		std::fprintf(fprog, "%s\n", rl.c_str());
-		AnyView cur = make_root_any(ex, g_mem + base);
+		AnyView cur = make_root_any(ex, make_ptr(base));
 		if(rng.coin(50)) emit_queries(cur, 0, rng, false);
 		int nops = static_cast<int>(rng.range(0, 7));
 		int src = 0;
@@ -548,7 +566,7 @@ static void run_generated(std::uint64_t seed, long nprog, bool rebased) {
 					std::string rl = "root 2 " + std::to_string(base2) + " " + std::to_string(ex2.size());
 					for(auto const& e : ex2) rl += " " + std::to_string(e.first) + " " + std::to_string(e.last);
 					std::fprintf(fprog, "%s\n", rl.c_str());
-					AnyView second = make_root_any(ex2, g_mem + base2);
+					AnyView second = make_root_any(ex2, make_ptr(base2));
 					int variant = static_cast<int>(rng.range(0, 2));
 					std::fprintf(fprog, "q death_assign %d 2 %d\n", src, variant);
 					std::visit([&](auto const& s) { q_death_assign(s, second, variant); }, cur);
@@ -584,7 +602,7 @@ static void run_replay(char const* path) {
 			std::vector<Ex> ex; long ne = 1;
 			for(int k = 0; k < D; ++k) { ex.push_back(Ex{std::stol(w[4 + 2 * static_cast<std::size_t>(k)]), std::stol(w[5 + 2 * static_cast<std::size_t>(k)])}); ne *= ex.back().size(); }
 			g_lo = base; g_hi = base + ne;
-			regs[static_cast<std::size_t>(reg)] = make_root_any(ex, g_mem + base);
+			regs[static_cast<std::size_t>(reg)] = make_root_any(ex, make_ptr(base));
 		} else if(w[0] == "v") {
 			int dst = std::stoi(w[1]); int src = std::stoi(w[2]);
 			Op op; op.name = w[3];
@@ -632,6 +650,9 @@ int main(int argc, char** argv) {
 	g_storage.assign(4096, 0);
 	for(std::size_t i = 0; i < g_storage.size(); ++i) g_storage[i] = static_cast<T>(i);
 	g_mem = g_storage.data();
+#if PTR_KIND != 0
+	fancy::g_origin = g_mem;
+#endif
 	if(argc >= 8 && std::string(argv[6]) == "--replay") run_replay(argv[7]);
 	else run_generated(seed, nprog, rebased);
 	std::fclose(fprog); std::fclose(fans);
